@@ -534,8 +534,9 @@ def judge_c11(d):
     return judge_stark(d)
 
 PROPS["C11"] = {
-    "lean_modules": ["P2.Props.C11", "P2.Props.C09"],
+    "lean_modules": ["P2.Props.C11", "P2.Props.C09", "P2.Props.C11b"],
     "audit_module": "P2.Audit.C11",
+    "extra_audit_modules": ["P2.Audit.C11b"],
     "harness_prop": "c11",
     "profile": "release",
     "judge": judge_c11,
@@ -543,8 +544,8 @@ PROPS["C11"] = {
         "the in-circuit STARK verifier as a whole is NOT modelled: the circuit's verdict is obtained from the real code (assignment through set_stark_proof_with_pis_target, witness generation, outer prove + verify) and compared with the native verifier and with the Lean native-verifier model; the Lean theorems are component-level (P2/Model/StarkCircuit.lean models the variable-degree gadgets as pure functions)",
         "algebraic component theorems take the monoid/commutation laws as hypotheses rather than instantiating them for GL2",
     ],
-    "level_text": "Lean 4 component theorems for the gadgets that distinguish the recursive STARK verifier from the native one: degree = 2^degree_bits from bits is correct exactly when degree_bits < 2^width and unsatisfiable otherwise (degreeGadget_eq / degreeGadget_too_narrow), quotient chunks recombined with ReducingFactorTarget(zeta^n) = native reduce_with_powers (reducingReduce_eq_native; the reversed fold is a different function), conditional Merkle verification with a path selected by the degree bits = native verification of the selected prefix (condMerkle_iff_native), padded final polynomial evaluation = unpadded (paddedFinalPolyEval_eq_native), the circuit's step_active flags = the native ConstantArityBits schedule (constantArityBits_var); three-way agreement on every case: native verify_stark_proof = in-circuit verdict (real recursive circuit, built once per (AIR, config, mode), real assignment routines) = Lean STARK verifier model, in fixed-degree mode (degree_bits 2..8 incl. exact powers of two) and variable-degree mode (one circuit for max degree M, proofs of every length m..M with padded transcripts), for honest proofs, per-class tampering, wrong/surplus/missing public inputs, bad and weak grinding, proofs of violating traces, wrong degree (wrong pis_degree_bits, proof for another length), lookup AIRs",
-    "level_note": "F-C11-3 (found by two audit agents, repaired): the variable-degree in-circuit FRI verifier did not bound the final polynomial by the actual degree — forged proofs of false statements were accepted in circuit; this check does NOT contain the cheating prover needed to reproduce it (demos under findings/audit-C06, audit-C04), it only confirms honest proofs of every length are still accepted after the repair. F-C11-2 (found and repaired): the fixed-degree circuit did not pin its degree_bits witness — a wrong pis_degree_bits was accepted (an audit agent demonstrated a false statement accepted this way); the check's wrong-degree assertion is strict in both modes and an all-zero-trace instance exercises it deterministically. F-C11-2 (found and repaired): the fixed-degree circuit did not pin its degree_bits witness — a wrong pis_degree_bits was accepted (an audit agent demonstrated a false statement accepted this way); the check's wrong-degree assertion is strict in both modes and an all-zero-trace instance exercises it deterministically. Genuine finding F-C11-1a/b/c (known): the assignment routines do not validate proof shape (surplus elements dropped, opening lists flattened, short final polynomial zero-padded), so some natively mis-shaped proofs satisfy the circuit; no false statement becomes provable. Everything else must agree exactly.",
+    "level_text": "(C11b, the repair of F-C11-3 as a theorem: a pure model (P2/Model/FriTail.lean) of the constraint added to the variable-degree in-circuit FRI verifier — the active reduction steps are a prefix, exactly one 'exactly the first m steps are active' selector fires, the computed mask inUse(t) is 1 exactly for t < r = degree_bits - (arities of the active steps), so the constraints hold iff every final-polynomial coefficient at a position >= 2^r is zero, and for ConstantArityBits r is the native schedule's final-polynomial size) Lean 4 component theorems for the gadgets that distinguish the recursive STARK verifier from the native one: degree = 2^degree_bits from bits is correct exactly when degree_bits < 2^width and unsatisfiable otherwise (degreeGadget_eq / degreeGadget_too_narrow), quotient chunks recombined with ReducingFactorTarget(zeta^n) = native reduce_with_powers (reducingReduce_eq_native; the reversed fold is a different function), conditional Merkle verification with a path selected by the degree bits = native verification of the selected prefix (condMerkle_iff_native), padded final polynomial evaluation = unpadded (paddedFinalPolyEval_eq_native), the circuit's step_active flags = the native ConstantArityBits schedule (constantArityBits_var); three-way agreement on every case: native verify_stark_proof = in-circuit verdict (real recursive circuit, built once per (AIR, config, mode), real assignment routines) = Lean STARK verifier model, in fixed-degree mode (degree_bits 2..8 incl. exact powers of two) and variable-degree mode (one circuit for max degree M, proofs of every length m..M with padded transcripts), for honest proofs, per-class tampering, wrong/surplus/missing public inputs, bad and weak grinding, proofs of violating traces, wrong degree (wrong pis_degree_bits, proof for another length), lookup AIRs",
+    "level_note": "F-C11-4 (audit agent, repaired): with min_degree_bits_to_support = max the degree_bits witness was free (random access into one element); an explicit range check was added and a singleton-range circuit with an all-zero trace exercises it here. F-C11-3 (found by two audit agents, repaired): the variable-degree in-circuit FRI verifier did not bound the final polynomial by the actual degree — forged proofs of false statements were accepted in circuit; this check does NOT contain the cheating prover needed to reproduce it (demos under findings/audit-C06, audit-C04), it only confirms honest proofs of every length are still accepted after the repair. F-C11-2 (found and repaired): the fixed-degree circuit did not pin its degree_bits witness — a wrong pis_degree_bits was accepted (an audit agent demonstrated a false statement accepted this way); the check's wrong-degree assertion is strict in both modes and an all-zero-trace instance exercises it deterministically. F-C11-2 (found and repaired): the fixed-degree circuit did not pin its degree_bits witness — a wrong pis_degree_bits was accepted (an audit agent demonstrated a false statement accepted this way); the check's wrong-degree assertion is strict in both modes and an all-zero-trace instance exercises it deterministically. Genuine finding F-C11-1a/b/c (known): the assignment routines do not validate proof shape (surplus elements dropped, opening lists flattened, short final polynomial zero-padded), so some natively mis-shaped proofs satisfy the circuit; no false statement becomes provable. Everything else must agree exactly.",
     "assumptions": ["the outer PLONK proof system is sound (C01-C03)", "FRI proximity soundness", "random oracle"],
     "rule": "fixed mode: circuit pairs (3,4), (7,8), (5,6), (2,3) + random pairs, AIR kinds rotating (fibonacci, generated degree 1/2/3, permutation, generated lookup AIRs); variable mode: 5 (thorough 15) groups with ConstantArityBits configs, every length m..M; variants per proof: honest, one tampered element per serde class, public inputs wrong/surplus/missing, bad + weak grinding, violating traces, wrong degree, malformed shapes; distinct = distinct request lines",
 }
